@@ -443,3 +443,68 @@ Check llgr_refresh_best_only :
     em_was_sent e (c_dest c) = true ->
     exists op, In op (fst r) /\ touches (c_dest c) 0 op = true.
 Print Assumptions llgr_refresh_best_only.
+
+(* The converse of (1)-(3): the three filters of process_nlri_change let a path
+   through EXACTLY when BGP allows it to go to that receiver (Spec may_send: not back
+   to its peer; route-server clients among themselves only; between iBGP peers only
+   by reflection, i.e. with a cluster id and a client on one side), for every source
+   whose role agrees with its AS numbers, except the kernel pseudo-source. *)
+Theorem propagation_exactly_where_allowed :
+  forall x raddr cid p,
+    wf_source (p_src p) -> p_src p <> SrcKernel ->
+    (visible x raddr cid p = true <-> may_send (p_src p) (x_role x) raddr cid).
+Proof. exact C09_visible_iff_may_send. Qed.
+Check propagation_exactly_where_allowed :
+  forall x raddr cid p,
+    wf_source (p_src p) -> p_src p <> SrcKernel ->
+    (visible x raddr cid p = true <-> may_send (p_src p) (x_role x) raddr cid).
+Print Assumptions propagation_exactly_where_allowed.
+
+(* The exception, recorded because the model is faithful to it (the property text does
+   not forbid it): Source::kernel() has remote_asn = local_asn = 0 and is not
+   Source::local(), so is_ibgp_learned holds of it and kernel-redistributed routes are
+   never sent to non-client iBGP peers. *)
+Theorem kernel_routes_withheld_from_nonclient_ibgp :
+  forall x raddr cid nh attrs lpid,
+    x_role x = Ibgp ->
+    visible x raddr cid {| p_lpid := lpid; p_src := SrcKernel; p_nh := nh; p_attrs := attrs |} = false.
+Proof. exact kernel_routes_and_nonclient_ibgp. Qed.
+Check kernel_routes_withheld_from_nonclient_ibgp :
+  forall x raddr cid nh attrs lpid,
+    x_role x = Ibgp ->
+    visible x raddr cid {| p_lpid := lpid; p_src := SrcKernel; p_nh := nh; p_attrs := attrs |} = false.
+Print Assumptions kernel_routes_withheld_from_nonclient_ibgp.
+
+(* Best-only branch, both directions: a changed best path that passes the filters and
+   the policy IS advertised (with the rewritten attributes and the policy's next hop);
+   one that does not is withdrawn if it had been sent. *)
+Theorem best_only_complete :
+  forall fixed x pol raddr cid c e best rest,
+    c_best_changed c = true -> c_paths c = best :: rest ->
+    (forall a nh out,
+       visible x raddr cid best = true ->
+       policy_stage x pol cid (c_family c) best = Some (a, nh) ->
+       export_attrs x (llgr_stage best a) = Ok out ->
+       process_change_v fixed x pol 1 raddr cid c e
+       = Ok ([Reach (c_dest c) 0 nh out (p_src best)], em_mark_sent e (c_dest c) 0))
+    /\ ((visible x raddr cid best = false \/ policy_stage x pol cid (c_family c) best = None) ->
+        process_change_v fixed x pol 1 raddr cid c e
+        = if em_was_sent e (c_dest c)
+          then Ok ([Unreach (c_dest c) 0], em_mark_withdrawn e (c_dest c) 0)
+          else Ok ([], e)).
+Proof. exact C09_best_only_complete. Qed.
+Check best_only_complete :
+  forall fixed x pol raddr cid c e best rest,
+    c_best_changed c = true -> c_paths c = best :: rest ->
+    (forall a nh out,
+       visible x raddr cid best = true ->
+       policy_stage x pol cid (c_family c) best = Some (a, nh) ->
+       export_attrs x (llgr_stage best a) = Ok out ->
+       process_change_v fixed x pol 1 raddr cid c e
+       = Ok ([Reach (c_dest c) 0 nh out (p_src best)], em_mark_sent e (c_dest c) 0))
+    /\ ((visible x raddr cid best = false \/ policy_stage x pol cid (c_family c) best = None) ->
+        process_change_v fixed x pol 1 raddr cid c e
+        = if em_was_sent e (c_dest c)
+          then Ok ([Unreach (c_dest c) 0], em_mark_withdrawn e (c_dest c) 0)
+          else Ok ([], e)).
+Print Assumptions best_only_complete.
